@@ -86,6 +86,15 @@ theorem stepSum {σ σ' : State} {a : Action} (hb : Basic σ) (h : Step Cfg.real
       simp only [privOf, List.length_nil] at this
       show e.seq ≤ σ.pub + σ.pending.length
       omega
+  | seqSkip n =>
+    obtain ⟨g1, g2, rfl⟩ := doSeqSkip_some h
+    have hhist := hb.hist_le g2
+    refine stepSum_noReaders (Nat.le_add_right _ _) hist0 rfl same (Or.inr ⟨_, rfl, rfl, rfl, ?_, ?_⟩)
+    · intro e
+      constructor
+      · intro he; cases he
+      · intro he; have := hhist e he.1; omega
+    · intro e he; cases he
   | rotate =>
     obtain ⟨g1, g2, g3, rfl⟩ := doRotate_some h
     exact stepSum_noReaders (Nat.le_refl _) hist0 rfl same (Or.inl ⟨rfl, rfl⟩)
@@ -208,7 +217,14 @@ theorem stepSum {σ σ' : State} {a : Action} (hb : Basic σ) (h : Step Cfg.real
       omega
   | trDiscard =>
     obtain ⟨t, g1, g2, rfl⟩ := doTrDiscard_some h
-    exact stepSum_noReaders (Nat.le_refl _) hist0 rfl same (Or.inl ⟨rfl, rfl⟩)
+    obtain ⟨x1, x2, x3, x4⟩ := hb.trExcl t g1
+    have hhist := hb.hist_le x1
+    refine stepSum_noReaders (Nat.le_max_left _ _) hist0 rfl same (Or.inr ⟨_, rfl, rfl, rfl, ?_, ?_⟩)
+    · intro e
+      constructor
+      · intro he; cases he
+      · intro he; have := hhist e he.1; omega
+    · intro e he; cases he
 
 
 /-! ## executions -/
